@@ -307,7 +307,42 @@ def fresh_path(suffix=".h5"):
         shutil.rmtree(p, ignore_errors=True)
     elif os.path.exists(p):
         os.remove(p)
+    if suffix == ".h5" and os.environ.get("VERIF_PATH_HISTORY", "1") != "0":
+        _give_history(p, _counter[0] % 3)
     return p
+
+
+def _give_history(p, kind):
+    """before a path is handed out, the package has already SEEN it holding something else: an EMD 1.0 file it read
+    (kind 1) or an HDF5 file that is not an EMD file and that it refused (kind 2).  Whatever the package remembers about a
+    path from then (is it an EMD file? which roots?) is stale by the time the case uses the path."""
+    if kind == 0:
+        return
+    try:
+        import emdfile, h5py
+        with quiet():
+            if kind == 1:
+                emdfile.save(p, emdfile.Root(name="history_of_this_path"))
+                emdfile.read(p)
+            else:
+                with h5py.File(p, "w") as f:
+                    f.create_group("not_emd").attrs["x"] = 1
+                try:
+                    emdfile.read(p)
+                except Exception:
+                    pass
+                try:
+                    emdfile.save(p, emdfile.Root(name="r"), mode="a")
+                except Exception:
+                    pass
+    except Exception:
+        pass
+    finally:
+        try:
+            if os.path.exists(p):
+                os.remove(p)
+        except OSError:
+            pass
 
 
 @contextlib.contextmanager
